@@ -129,11 +129,14 @@ SPECS['C04'] = dict(
     trusted_base=TRUST,
     obligations=(
         parts(ch('mid-task-death', 'harness.c04', 'h_mid', 'worker dies mid-task with any status: its job and only its job is lost, '
-                 'not before the timeout, reported on every handle kind, pool restored', timeout=(240, 1500)), 8)
-        + parts(twin('mid-task-death', 'harness.c04', 'h_mid_twin', 'a run in which the loss is reported exists'), 8)
+                 'not before the timeout, reported on every handle kind, pool restored; also when the pool itself had told the worker to leave (shrink)', timeout=(240, 1500)), 16)
+        + parts(twin('mid-task-death', 'harness.c04', 'h_mid_twin', 'a run in which the loss is reported exists'), 16)
         + parts(ch('exit-after-work', 'harness.c04', 'h_after', 'worker exits between jobs with any status (result handled before or '
                    'after): nothing is ever reported lost and the job completes with its real result', timeout=(240, 1500)), 4)
         + parts(twin('exit-after-work', 'harness.c04', 'h_after_twin', 'a run in which the worker exits exists'), 4)
+        + [ch('death-after-close', 'harness.c07', 'h_death_after_close', '"rather than leaving the caller waiting forever" also once the pool is closed: a worker dies in task code '
+              'after close(): exactly its job fails with WorkerLostError, the other job keeps its result', timeout=(300, 1500)),
+           twin('death-after-close', 'harness.c07', 'h_death_after_close_twin', 'join() returns in some such run')]
     ),
 )
 
@@ -206,6 +209,9 @@ SPECS['C05'] = dict(
                  'H = job limit else pool limit; TERM then KILL if it lingers; nothing before; late result ignored; pool restored and '
                  'serves a later job', timeout=(300, 1500)), 8)
         + parts(twin('hard-limit', 'harness.c05', 'h_hard_twin', 'a run reaching the expiry branch exists'), 8)
+        + parts(ch('limits-on-a-replacement-worker', 'harness.c05', 'h_replaced', 'a worker of the initial set exits (cleanly / killed) and is replaced before the job is '
+                   'taken by the replacement: soft signal, TERM/KILL and TimeLimitExceeded reach the process that runs the job now', timeout=(300, 1500)), 8)
+        + parts(twin('limits-on-a-replacement-worker', 'harness.c05', 'h_replaced_twin', 'a run reaching an expiry branch on the replacement exists'), 8)
         + [ch('two-jobs-callback-preemption', 'harness.c05b', 'h_two_jobs', 'two jobs past their limit; the timed-out job\'s timeout callback (user code inside the scan) lets the '
               'result handler process the other job\'s pending result: that job keeps its result and its worker is not signalled', timeout=(300, 1500)),
            twin('two-jobs-callback-preemption', 'harness.c05b', 'h_two_jobs_twin', 'the callback fires in some run')]
@@ -232,6 +238,13 @@ SPECS['C06'] = dict(
                  'the hard path took the job, S = job soft limit else pool default, callback soft=True/timeout=S; never for a job whose '
                  'result was processed (also when the result handler runs between snapshot and check)', timeout=(300, 1500)), 16)
         + parts(twin('soft-limit', 'harness.c05', 'h_soft_twin', 'a run reaching the soft-expiry branch exists'), 16)
+        + parts(ch('limits-on-a-replacement-worker', 'harness.c05', 'h_replaced', 'the job runs on a worker that replaced one of the initial set: the soft signal reaches the '
+                   'process that runs the job now, once, with the callback', timeout=(300, 1500)), 8)
+        + parts(twin('limits-on-a-replacement-worker', 'harness.c05', 'h_replaced_twin', 'a run reaching an expiry branch on the replacement exists'), 8)
+        + parts(ch('threaded-shutdown', 'harness.c06b', 'h_threaded_shutdown', 'threaded pool: the scanner thread (its own handle_timeouts generator) and the result handler\'s '
+              'shutdown phase (real finish_at_shutdown after close()) together send the soft signal exactly once to a job that outlives its limit, with one callback; the '
+              'task that catches it still has its value delivered', timeout=(300, 1500)), 8)
+        + parts(twin('threaded-shutdown', 'harness.c06b', 'h_threaded_shutdown_twin', 'a run in which the limit expires during shutdown exists'), 8)
         + parts(ch('worker-soft', 'harness.c03', 'h_soft', 'handler runs inside task j: SoftTimeLimitExceeded seen by task j only; a task '
                    'that catches it has its value delivered; other jobs unaffected', timeout=(300, 1500)), 6)
         + parts(twin('worker-soft', 'harness.c03', 'h_soft_twin', 'a run with the signal inside a task exists'), 6)
@@ -287,8 +300,8 @@ SPECS['C10'] = dict(
             'and has the documented effect (inductive: histories of any length)', timeout=(120, 600)),
          twin('sem-step', 'harness.c10', 'h_sem_step_twin', 'the capped release (value == bound) is reached')]
         + parts(ch('pool-slots', 'harness.c10', 'h_pool', 'conservation / blocking at the bound / all slots free at quiescence, histories of '
-                   'submissions, takes, results, exits, ticks, a map job, a failing send', timeout=(300, 1500)), 4)
-        + parts(twin('pool-slots', 'harness.c10', 'h_pool_twin', 'a run in which apply_async blocks exists'), 4)
+                   'submissions, takes, results, exits, ticks, a map job, a failing send, result callbacks (which see the slot free again, may raise a propagated exception)', timeout=(300, 1500)), 5)
+        + parts(twin('pool-slots', 'harness.c10', 'h_pool_twin', 'a run in which apply_async blocks exists'), 5)
         + [smt('race-release-release', 'harness.c10', 'ob_release_release', 'E2: release || release, every interleaving of attribute reads/writes and lock operations: value <= bound',
                replay_function='replay_race'),
            smt('race-release-grow', 'harness.c10', 'ob_release_grow', 'E2: release || grow', replay_function='replay_race'),
@@ -592,6 +605,10 @@ SPECS['C08'] = dict(
         + parts(ch('terminate-job', 'harness.c01', 'h_term', 'terminate_job on a busy worker: Terminated for exactly its job', timeout=(300, 1500)), 6)
         + [ch('after-fork-signal-order', 'harness.c03', 'h_after_fork', 'real Worker.after_fork with a recording signal table: the termination handlers (and the soft-limit '
               'handler) are installed after the user initializer ran, so they win; parent pipe ends closed', timeout=(300, 1500), nontrivial_witness=True)]
+        + [ch('terminate-threaded', 'harness.c07', 'h_terminate_threaded', 'threaded pool (helper threads played by the harness): terminate() with 0..2 jobs fed and possibly one job '
+              'still with the task-feeder thread; the task queue\'s read lock is held by an idle worker until it is sent something: terminate() returns, no worker is alive, '
+              'the feeder thread has ended', timeout=(300, 1500)),
+           twin('terminate-threaded', 'harness.c07', 'h_terminate_threaded_twin', 'a run in which the feeder still had a job when terminate() came exists')]
         + [ch('terminate-during-supervision', 'harness.c07', 'h_midtick', 'terminate() issued from on_process_up (while replacements are being started): no further '
               'worker is started, every worker is gone afterwards', timeout=(300, 1500), env={'VERIF_PART': '1', 'VERIF_NPART': '2'}),
            ch('terminate-during-supervision/twin', 'harness.c07', 'h_midtick_twin', 'the callback fires in some run', timeout=(120, 600), expect='refuted',
